@@ -29,6 +29,9 @@ type c07Case struct {
 	// NoClientCAs: the server has no client roots configured (ClientCAs nil) but does have RootCAs
 	// (which are for verifying servers, not clients) naming the client's issuer
 	NoClientCAs bool `json:"no_client_cas,omitempty"`
+	// SrvSkipVerify: the server's Config carries InsecureSkipVerify (a switch for the client role: it
+	// says nothing about client certificates)
+	SrvSkipVerify bool `json:"srv_skip_verify,omitempty"`
 }
 
 var c07Behaviours = []string{"no-cert-msg", "empty", "trusted", "untrusted", "expired", "wrong-eku", "enc-untrusted", "enc-expired", "enc-wrong-eku", "sig-wrong-eku", "cv-omitted", "cv-otherkey", "cv-othertranscript", "cv-corrupt", "cv-second-cert-key", "cv-encleaf-second-cert-key", "one-cert"}
@@ -101,6 +104,7 @@ func c07Run(c c07Case) (sig, msg string) {
 	if c.NoClientCAs {
 		ucfg.ClientCAs, ucfg.RootCAs = nil, p.A.pool
 	}
+	ucfg.InsecureSkipVerify = c.SrvSkipVerify
 	sigC, encC := p.CliSig, p.CliEnc
 	switch c.Beh {
 	case "untrusted":
@@ -247,7 +251,7 @@ type c07Hist struct {
 	Suite    uint16 `json:"suite"`
 	P1, P2   int
 	CliCerts int `json:"clicerts"` // 0 none, 1 trusted (A), 2 untrusted (B, forced through the callback), 3 issued by A but extended key usage codeSigning only
-	Env2     int `json:"env2"`     // second configuration: 0 same roots and clock, 1 trusts only root B, 2 clock after the client certificate's expiry
+	Env2     int `json:"env2"`     // second configuration: 0 same roots and clock, 1 trusts only root B, 2 clock after the client certificate's expiry, 3 the very same Config object (P2 = P1) whose clock has moved past the expiry, and the client has no session to offer: a second full handshake
 }
 
 func c07History(h c07Hist) (sig, msg string, resumed bool) {
@@ -300,6 +304,35 @@ func c07History(h c07Hist) (sig, msg string, resumed bool) {
 		beh1 = "no-cert-msg"
 	}
 	want1, _ := c07Allows(ClientAuthType(h.P1), ecdhe, beh1)
+	if h.Env2 == 3 {
+		// one Config object serves both connections; its clock moves in between; no session is offered
+		now := vfT0
+		scfg := mk(h.P1)
+		scfg.Time = func() time.Time { return now }
+		scfg.SessionCache = nil
+		ccfg.SessionCache = nil
+		ra := vfRunPair(ccfg, scfg, vfPairOpt{InPlace: true})
+		if ra.CPanic != "" || ra.SPanic != "" {
+			return "panic", ra.CPanic + ra.SPanic, false
+		}
+		if (ra.SErr == nil) != want1 {
+			return "policy-table:history-conn1", fmt.Sprintf("connection 1 under policy %d with client certs %d: completed=%v (%v), allowed=%v", h.P1, h.CliCerts, ra.SErr == nil, ra.SErr, want1), false
+		}
+		now = vfT0.AddDate(3, 0, 0)
+		behB := beh1
+		if (h.CliCerts == 1 || h.CliCerts == 3) && beh1 != "no-cert-msg" {
+			behB = "expired"
+		}
+		wantB, _ := c07Allows(ClientAuthType(h.P1), ecdhe, behB)
+		rb := vfRunPair(ccfg, scfg, vfPairOpt{InPlace: true})
+		if rb.CPanic != "" || rb.SPanic != "" {
+			return "panic", rb.CPanic + rb.SPanic, false
+		}
+		if (rb.SErr == nil) != wantB {
+			return "policy-table:same-config-later", fmt.Sprintf("policy %d, client certs %d: the same Config served a first connection (completed=%v) and, with its clock three years on (client certificates %q then), a second full handshake: completed=%v (%v), allowed=%v", h.P1, h.CliCerts, ra.SErr == nil, behB, rb.SErr == nil, rb.SErr, wantB), false
+		}
+		return "", "", false
+	}
 	r1 := vfRunPair(ccfg, mk(h.P1), vfPairOpt{})
 	if r1.CPanic != "" || r1.SPanic != "" {
 		return "panic", r1.CPanic + r1.SPanic, false
@@ -516,7 +549,7 @@ func TestVF_C09_Shapes(t *testing.T) {
 }
 
 func TestVF_C07(t *testing.T) {
-	rec := vfRec("C07", "C07-clientauth", "six policies x client behaviours (Certificate omitted, empty, trusted, untrusted CA, expired, wrong EKU, CertificateVerify omitted / by another key / over another transcript / corrupted) x suites played by a scripted client-role peer, plus two-connection histories (policy P1 then P2 on a shared session cache x client certificate kind x second configuration's roots / clock), a server without client roots, and eviction histories (a small server cache, client X's sessions evicted by client Y's, Y resumes: the server must report Y's identity); oracle: table from the documented ClientAuthType semantics; non-trivial = everything except (NoClientCert, no certificate); distinct = the case")
+	rec := vfRec("C07", "C07-clientauth", "six policies x client behaviours (Certificate omitted, empty, trusted, untrusted CA, expired, wrong EKU, CertificateVerify omitted / by another key / over another transcript / corrupted) x suites played by a scripted client-role peer, plus two-connection histories (policy P1 then P2 on a shared session cache x client certificate kind x second configuration's roots / clock), a server without client roots, a server Config that carries InsecureSkipVerify, one Config object serving two full handshakes with its clock moved past the client certificate's expiry in between, and eviction histories (a small server cache, client X's sessions evicted by client Y's, Y resumes: the server must report Y's identity); oracle: table from the documented ClientAuthType semantics; non-trivial = everything except (NoClientCert, no certificate); distinct = the case")
 	suites := []uint16{ECC_SM4_GCM_SM3, ECDHE_SM4_GCM_SM3}
 	if vfThorough() {
 		suites = vfSuites
@@ -542,6 +575,15 @@ func TestVF_C07(t *testing.T) {
 						rec.Violation(sig, c, "%s", msg)
 					}
 					rec.Eval(true, c, "beh:"+beh, "no-client-roots")
+					c.NoClientCAs = false
+				}
+				if beh == "trusted" || beh == "untrusted" || beh == "expired" || beh == "wrong-eku" || beh == "empty" || beh == "cv-otherkey" {
+					c.SrvSkipVerify = true
+					sig, msg := c07Run(c)
+					if sig != "" {
+						rec.Violation(sig, c, "%s", msg)
+					}
+					rec.Eval(true, c, "beh:"+beh, "server-config-with-skip-verify")
 				}
 			}
 		}
@@ -551,8 +593,11 @@ func TestVF_C07(t *testing.T) {
 		for p1 := 0; p1 <= 5; p1++ {
 			for p2 := 0; p2 <= 5; p2++ {
 				for cc := 0; cc <= 3; cc++ {
-					for env2 := 0; env2 <= 2; env2++ {
+					for env2 := 0; env2 <= 3; env2++ {
 						if env2 != 0 && cc == 0 {
+							continue
+						}
+						if env2 == 3 && p2 != p1 {
 							continue
 						}
 						idx++
